@@ -16,7 +16,7 @@ pub const L_POLL: u64 = 4096;
 pub const L_AFTER: u64 = 256;
 pub const HARD: u64 = 2_000_000;
 
-pub const RULE: &str = "valid positions: the C05 mixture, the general mixture (full middlegames) and explosive shapes (rows of pawns one step from promotion on both sides, several queens, long checking sequences), depth 1..5 (or 64 as with a clock-only go), x optional earlier searches on the same engine (same or neighbouring position, depth 1..4, without deadline or themselves cut off by a small deadline; 3 %: a middlegame search of up to 1.4 M nodes ended by its own deadline) x expiry point k (node-count deadline through the SearchTimer hook: at node k the timer's own limit becomes zero, the engine's real deadline test decides): k log-uniform in 1..300k (thorough 3M), and ALL k in 1..T-1 for small searches. Oracle on instrumentation counters after find_best_move returns: first poll that sees the expired budget comes <= 4096 nodes after expiry; <= 256 further nodes are expanded after that observation; the search returns at all (hard cap k+2M nodes turns 'never stops' into a caught panic). Non-trivial = the deadline fell inside the search (a poll returned true before the search would have finished); distinct by (FEN, depth, k). Black-box layer (real binary, real clock): go movetime T / a clock with T left / depth 64 movetime T, T in 0..300 ms (one case in seven 700..1500 ms), on explosive, middlegame and game positions, optionally after an earlier depth-limited search in the same process (half of them with a generous move time or clock of their own, which they do not use up); CPU time consumed between go and bestmove <= T + 300 ms (non-trivial = the last completed iteration is below depth 64, i.e. the clock ended the search).";
+pub const RULE: &str = "valid positions: the C05 mixture, the general mixture (full middlegames) and explosive shapes (rows of pawns one step from promotion on both sides, several queens, long checking sequences), depth 1..5 (or 64 as with a clock-only go), x optional earlier searches on the same engine (same or neighbouring position, depth 1..4, without deadline or themselves cut off by a small deadline; 3 %: a middlegame search of up to 1.4 M nodes ended by its own deadline) x expiry point k (node-count deadline through the SearchTimer hook: at node k the timer's own limit becomes zero, the engine's real deadline test decides): k log-uniform in 1..300k (thorough 3M), and ALL k in 1..T-1 for small searches. Oracle on instrumentation counters after find_best_move returns: first poll that sees the expired budget comes <= 4096 nodes after expiry; <= 256 further nodes are expanded after that observation; the search returns at all (hard cap k+2M nodes turns 'never stops' into a caught panic). Non-trivial = the deadline fell inside the search (a poll returned true before the search would have finished); distinct by (FEN, depth, k). Black-box layer (real binary, real clock): go movetime T / a clock with T left / depth 64 movetime T, T in 0..300 ms (one case in seven 700..1500 ms), on explosive, middlegame and game positions, optionally after an earlier depth-limited search in the same process (half of them with a generous move time or clock of their own, which they do not use up) or, one case in eight, after a timed search that used up a budget of 350..800 ms; CPU time consumed between go and bestmove <= T + 300 ms (non-trivial = the last completed iteration is below depth 64, i.e. the clock ended the search).";
 
 thread_local! {
     static KMAX: Cell<u64> = Cell::new(300_000);
@@ -249,6 +249,15 @@ fn part_blackbox(bytes: &[u8], stats: &mut Stats) -> Verdict {
         if script.last().map(|l| l.contains("time")).unwrap_or(false) {
             stats.class("blackbox_after_an_earlier_timed_search_that_ended_early");
         }
+    }
+    // one case in eight: the earlier search was itself a TIMED one that used its budget up (several
+    // hundred milliseconds, a million nodes and more) — whatever the clock code remembers of it
+    // (node counts, poll schedules, lags) meets a much shorter budget next
+    if s.chance(12) {
+        script.clear();
+        script.push(format!("position fen {}", fen));
+        script.push(format!("go movetime {}", *s.pick(&[350u64, 500, 800])));
+        stats.class("blackbox_after_an_earlier_timed_search_that_used_its_budget");
     }
     script.push(format!("position fen {}", fen));
     judge_blackbox(&script, &go, t_ms, kind, stats)
